@@ -600,6 +600,8 @@ theorem run_hops (cfg : Cfg) (hj : cfg.useJar = false) (hH : getList cfg.factory
         rcases List.mem_append.mp hh with hh | hh
         · exact hs h hh
         · simp at hh; subst hh; exact hok
+      split
+      · exact hs
       simp only []
       split
       · exact hs
